@@ -957,6 +957,28 @@ def check_opes(run, exe, model, cases, scratch):
                 run.violation("opes:kernels-not-the-contributions", "at step %d the kernel centres are %s, the walkers were fed %s at the deposition steps (rank order)"
                               % (t, got, exp), {"kind": "opes", "case": c, "step": t})
                 break
+            # the normalisation: bit-identical on all walkers (sum of weights, of squared weights, neff, rct, zed, kernel norm, counter)
+            norm = [tuple(d.get(x) for x in ("sumw", "sumw2", "neff", "rct", "zed", "kdenorm", "counter")) for d in dumps]
+            if any(x != norm[0] for x in norm[1:]):
+                run.violation("opes:normalisation-differs", "at step %d the walkers hold different normalisations (sumw, sumw2, neff, rct, zed, kdenorm, counter): %s"
+                              % (t, norm), {"kind": "opes", "case": c, "step": t})
+                break
+            if t == 0:
+                base = dumps[0]
+                hrounds = []
+            if t > 0 and t % c["pace"] == 0:
+                nk = len(dumps[0]["kernels"])
+                hrounds.append([k[0] for k in dumps[0]["kernels"][nk - c["n"]:]])
+                rc, mo2, err = V.run_lines(model, ["OPESSUM %s %s %d %s %s" % (base["sumw"], base["sumw2"], base["counter"], base["kbt"],
+                                                   ";".join(",".join(r_) for r_ in hrounds))], timeout=60)
+                if rc != 0 or len(mo2) != 1:
+                    raise V.InfraError("C14 model driver failed: rc=%s %s" % (rc, err[-500:]))
+                last = mo2[0].split()[1].split(";")[-1].split(",")
+                got_n = (dumps[0]["sumw"], dumps[0]["sumw2"], str(dumps[0]["counter"]), dumps[0]["neff"], dumps[0]["rct"])
+                okn = all((a == b) if i == 2 else close(float.fromhex(a), float.fromhex(b), False) for i, (a, b) in enumerate(zip(got_n, last)))
+                if not okn:
+                    run.mismatch("opes:sums", {"case": c, "step": t}, got_n, last)
+                    break
             rc, mout, err = V.run_lines(model, ["OPES %d %s" % (c["n"], ";".join(",".join(rd) for rd in rounds))], timeout=60)
             if rc != 0 or len(mout) != 1:
                 raise V.InfraError("C14 model driver failed: rc=%s %s" % (rc, err[-500:]))
